@@ -12,7 +12,8 @@ DIGITS = ["0", "1", "2", "10", "007", "-1", " 1", "1_0", "+1", "٣", "1\n"]
 PUNCT = [".", "..", "...", "a/b", "/", "//", "a[0]", "[", "]", "[1:2]", "[:]", "[0]", "a]", "a.b", ".a", "a.",
          "x/..", "../x", ":", "-", "a[b]", "[x]", "a/[x]"]
 BACKSLASH_OK = ["\\a", "a\\b", "a\\/b", "a\\[b", "\\\\a", "\\x"]
-BACKSLASH_BAD = ["a\\.b", "a\\]b", "\\.", "\\]"]
+# a backslash directly before '.' or ']' (emitted doubled by fq_name since b49b3eb)
+BACKSLASH_BAD = ["a\\.b", "a\\]b", "\\.", "\\]", "a\\\\.b", "\\.\\.", "x\\]\\."]
 BACKSLASH_END = ["a\\", "\\", "a/\\"]
 UNICODE = ["é", "名前", "a b", " ", "\n", "a\n", "\t", "\U0001f600", " "]
 EMPTY = [""]
@@ -26,11 +27,9 @@ def good_name(s):
 
 
 def c13_bad_name_kind(s):
-    """why fq_name cannot address (below) an element of this name; None if it can"""
+    """why fq_name cannot address an element of this name; None if it can"""
     if s == "":
         return "empty"
-    if "\\." in s or "\\]" in s:
-        return "backslash-dot"
     return None
 
 
@@ -196,16 +195,21 @@ def value_of(node):
 _BUILD_CACHE = {}
 
 
-def build(tree):
+def build(tree, init=None, history=None):
     """(root element, {id: element}, {python id(element): node id}); cached per process —
-    find()/fq_name() do not mutate the tree"""
+    find()/fq_name() do not mutate the tree.  With a history the elements are built from `init`,
+    the list operations are applied through the public List API, and the result must have the
+    shape of `tree` (the history simulated on the description with Python's list semantics)."""
     from harness.core import canon
-    key = canon(tree)
+    key = canon([tree, history]) if history else canon(tree)
     hit = _BUILD_CACHE.get(key)
     if hit is not None:
         return hit
-    cls = schema_class(schema_of(tree))
-    root = cls(value_of(tree))
+    first = init if history else tree
+    cls = schema_class(schema_of(first))
+    root = cls(value_of(first))
+    if history:
+        apply_history(root, history)
     byid, label = {}, {}
 
     def walk(el, node):
@@ -213,6 +217,8 @@ def build(tree):
         label[id(el)] = node["id"]
         kids = list(el.children)
         assert len(kids) == len(node["kids"]), "harness: tree shape mismatch at node %s" % node["id"]
+        if node["k"] == "s" and isinstance(el.value, str) and el.value.startswith("v"):
+            assert el.value == "v%d" % node["id"], "harness: list history simulated wrongly at node %s" % node["id"]
         for ke, kn in zip(kids, node["kids"]):
             if node["k"] in ("d", "c"):
                 assert ke.name == kn["name"], "harness: field order mismatch"
@@ -223,6 +229,177 @@ def build(tree):
     out = (root, byid, label)
     _BUILD_CACHE[key] = out
     return out
+
+
+def build_case(case):
+    return build(case["tree"], case.get("init"), case.get("history"))
+
+
+# ------------------------------------------------------------------ list mutation histories
+# op = {"at": [child indexes from the root to a List], "op": name, ...args, "nodes": [new member nodes]}
+
+LIST_OPS = ["pop", "pop", "insert", "delitem", "delslice", "setslice", "reverse", "sort", "remove", "iadd", "append"]
+
+
+def _node_at(tree, pos):
+    n = tree
+    for i in pos:
+        n = n["kids"][i]
+    return n
+
+
+def _list_positions(tree):
+    out = []
+
+    def go(n, pos):
+        if n["k"] == "l":
+            out.append(pos)
+        for i, k in enumerate(n["kids"]):
+            go(k, pos + [i])
+    go(tree, [])
+    return out
+
+
+def _max_id(tree):
+    return max(n["id"] for n in preorder(tree))
+
+
+def _number_from(node, start):
+    c = [start]
+
+    def go(n):
+        n["id"] = c[0]
+        c[0] += 1
+        for k in n["kids"]:
+            go(k)
+    go(node)
+    return c[0]
+
+
+def simulate_op(tree, op):
+    """apply one list operation to the description (in place) with Python's list semantics;
+    raises on an operation Python would reject"""
+    n = _node_at(tree, op["at"])
+    assert n["k"] == "l"
+    K = n["kids"]
+    new = copy.deepcopy(op.get("nodes", []))
+    name = op["op"]
+    if name == "pop":
+        K.pop(op["i"])
+    elif name == "insert":
+        K.insert(op["i"], new[0])
+    elif name == "delitem":
+        del K[op["i"]]
+    elif name == "delslice":
+        del K[slice(op["a"], op["b"], op["c"])]
+    elif name == "setslice":
+        K[op["a"]:op["b"]] = new
+    elif name == "reverse":
+        K.reverse()
+    elif name == "sort":
+        K.sort(key=lambda m: "v%d" % m["id"], reverse=op["reverse"])
+    elif name == "remove":
+        del K[op["i"] if op["i"] >= 0 else len(K) + op["i"]]
+    elif name in ("iadd", "extend"):
+        K.extend(new)
+    elif name == "append":
+        K.append(new[0])
+    else:
+        raise ValueError(name)
+
+
+def simulate(init, history):
+    t = copy.deepcopy(init)
+    for op in history:
+        simulate_op(t, op)
+    return t
+
+
+def apply_history(root, history):
+    """the same operations on the real elements, through the public List API"""
+    for op in history:
+        lst = root
+        for i in op["at"]:
+            lst = list(lst.children)[i]
+        vals = [value_of(n) for n in op.get("nodes", [])]
+        name = op["op"]
+        if name == "pop":
+            lst.pop(op["i"])
+        elif name == "insert":
+            lst.insert(op["i"], vals[0])
+        elif name == "delitem":
+            del lst[op["i"]]
+        elif name == "delslice":
+            del lst[slice(op["a"], op["b"], op["c"])]
+        elif name == "setslice":
+            lst[op["a"]:op["b"]] = vals
+        elif name == "reverse":
+            lst.reverse()
+        elif name == "sort":
+            lst.sort(key=lambda slot: slot.value, reverse=op["reverse"])
+        elif name == "remove":
+            lst.remove(list(lst)[op["i"]])
+        elif name == "iadd":
+            lst += vals
+        elif name == "extend":
+            lst.extend(vals)
+        elif name == "append":
+            lst.append(vals[0])
+        else:
+            raise ValueError(name)
+
+
+def rand_history(rng, tree, nops):
+    """(final tree, history): `nops` random operations on random List nodes (any depth) of the
+    evolving tree"""
+    t = copy.deepcopy(tree)
+    nxt = _max_id(t) + 1
+    hist = []
+    for _ in range(nops):
+        lists = _list_positions(t)
+        if not lists:
+            break
+        pos = rng.choice(lists)
+        n = _node_at(t, pos)
+        L = len(n["kids"])
+        scalar_members = n["member"]["k"] == "s"
+        name = rng.choice(LIST_OPS)
+        op = {"at": pos, "op": name}
+
+        def fresh(count):
+            nonlocal nxt
+            out = []
+            for _ in range(count):
+                m = instantiate(rng, n["member"], maxlen=2)
+                nxt = _number_from(m, nxt)
+                out.append(m)
+            return out
+        if name in ("pop", "delitem", "remove"):
+            if L == 0 or (name == "remove" and not scalar_members):
+                continue
+            op["i"] = rng.randrange(-L, L)
+        elif name == "insert":
+            op["i"] = rng.randrange(-L - 2, L + 3)
+            op["nodes"] = fresh(1)
+        elif name == "delslice":
+            op["a"] = rng.choice([None, 0, 1, -1, -2, 2])
+            op["b"] = rng.choice([None, None, L, -1, 1, 0])
+            op["c"] = rng.choice([None, None, 1, 2, -1, -2, 3])
+        elif name == "setslice":
+            op["a"] = rng.choice([None, 0, 1, -1, L])
+            op["b"] = rng.choice([None, 1, 2, -1, L])
+            op["nodes"] = fresh(rng.choice([0, 1, 2]))
+        elif name == "sort":
+            if not scalar_members:
+                continue
+            op["reverse"] = rng.random() < 0.5
+        elif name == "iadd":
+            op["nodes"] = fresh(rng.choice([1, 2]))
+        elif name == "append":
+            op["nodes"] = fresh(1)
+        simulate_op(t, op)
+        hist.append(op)
+    return t, hist
 
 
 def lean_tree(tree):
